@@ -1,4 +1,8 @@
-"""C19, code -> spec: recorder for Samples.burnthin / funvals / vector / parameters events.
+"""C19, code -> spec: recorder for Samples.burnthin / funvals / vector / parameters / compute_rhat events.
+
+Every event carries a FRAME record: was the receiver (sample bytes, flags, geometry) the same after the call, and - for
+compute_rhat - the length of the caller's list of chains before / after, whether it holds the same objects in the same order
+and whether their contents are unchanged.
 
 Used (a) in the harness process around seeded random drivers and (b) as a pytest plugin
 (`-p cuqiverif.c19_trace`, output file in $C19_TRACE_OUT) around the repository's own tests.  The wrappers are
@@ -38,16 +42,28 @@ def _cols(pre, post):
     return [pos.get(B[k].tobytes(), -1) for k in range(B.shape[0])]
 
 
+def _print(s):
+    """deep fingerprint of a sample set: sample bytes, shape, flags, geometry identity"""
+    a = s.samples
+    return (a.tobytes() if isinstance(a, np.ndarray) else repr(a), getattr(a, "shape", None), bool(s.is_par), bool(s.is_vec), id(s.geometry))
+
+
 def _record(op, self, args, call):
     if _depth[0] > 0:
         return call()
     _depth[0] += 1
     try:
         usable = isinstance(self.samples, np.ndarray) and self.samples.ndim >= 1
-        pre = pre_arr = geom = None
+        pre = pre_arr = geom = fp_self = None
+        chains = fp_chains = None
         if usable:
             try:
                 pre, pre_arr, geom = _describe(self), self.samples, self.geometry
+                fp_self = _print(self)
+                if op == "rhat":
+                    chains = args[0]
+                    members = list(chains) if isinstance(chains, list) else [chains]
+                    fp_chains = (len(members), [id(x) for x in members], [_print(x) if hasattr(x, "samples") else repr(x) for x in members], members)
             except Exception:       # noqa: BLE001
                 usable = False
         err, res = False, None
@@ -62,8 +78,14 @@ def _record(op, self, args, call):
                 SKIPPED["non_array"] += 1
             else:
                 ev = {"op": op, "b": 0, "t": 1, "err": err, "pre": pre,
-                      "post": {"n": 0, "par": True, "vec": True, "samegeom": True}, "cols": []}
+                      "post": {"n": 0, "par": True, "vec": True, "samegeom": True}, "cols": [],
+                      "frame": {"recv": bool(_print(self) == fp_self), "nl_pre": 0, "nl_post": 0, "ids": True, "args": True}}
                 ok = True
+                if op == "rhat":
+                    now = list(chains) if isinstance(chains, list) else [chains]
+                    ev["frame"].update({"nl_pre": fp_chains[0], "nl_post": len(now), "ids": [id(x) for x in now] == fp_chains[1],
+                                        "args": [_print(x) if hasattr(x, "samples") else repr(x) for x in fp_chains[3]] == fp_chains[2]})
+                    ev["single"] = not isinstance(chains, list)
                 if op == "burnthin":
                     b, t = args
                     if not (isinstance(b, (Integral, np.integer)) and isinstance(t, (Integral, np.integer)) and b >= 0 and t >= 1):
@@ -71,7 +93,7 @@ def _record(op, self, args, call):
                         ok = False
                     else:
                         ev["b"], ev["t"] = int(b), int(t)
-                if ok and not err:
+                if ok and not err and op != "rhat":
                     if not (hasattr(res, "samples") and isinstance(res.samples, np.ndarray)):
                         SKIPPED["non_array"] += 1
                         ok = False
@@ -92,16 +114,23 @@ def _record(op, self, args, call):
 
 
 def install():
-    """Wrap the four entry points on cuqi.samples.Samples.  Returns False if a target disappeared."""
+    """Wrap the five entry points on cuqi.samples.Samples.  Returns False if a target disappeared."""
     from cuqi.samples import Samples
     if _installed:
         return True
     bt = Samples.__dict__.get("burnthin")
     props = {name: Samples.__dict__.get(name) for name in ("funvals", "vector", "parameters")}
-    if bt is None or any(not isinstance(p, property) for p in props.values()):
+    rh = Samples.__dict__.get("compute_rhat")
+    if bt is None or rh is None or any(not isinstance(p, property) for p in props.values()):
         return False
     _installed["burnthin"] = bt
+    _installed["compute_rhat"] = rh
     _installed.update(props)
+
+    def compute_rhat(self, chains, **kwargs):
+        return _record("rhat", self, (chains,), lambda: rh(self, chains, **kwargs))
+    compute_rhat.__doc__ = rh.__doc__
+    Samples.compute_rhat = compute_rhat
 
     def burnthin(self, Nb, Nt=1):
         return _record("burnthin", self, (Nb, Nt), lambda: bt(self, Nb, Nt))
@@ -158,12 +187,23 @@ def random_driver(seed, rounds):
         else:
             d = int(rng.randint(1, 4)); geom = None
         s = Samples(rng.standard_normal((d, N)), geometry=geom)
+        others = None
         for _step in range(4):
-            r = rng.randint(6)
+            r = rng.randint(7)
             try:
                 with warnings.catch_warnings():
                     warnings.simplefilter("ignore")
-                    if r <= 2:
+                    if r == 6:
+                        # R-hat against one list of 1..3 chains of the same shape, the SAME list object for two calls
+                        # (and a single Samples argument); shapes that arviz refuses are recorded as refusals
+                        if others is None or others[0].samples.shape != s.samples.shape or N > 40:
+                            others = [Samples(rng.standard_normal(s.samples.shape), geometry=s.geometry, is_par=s.is_par, is_vec=s.is_vec)
+                                      for _k in range(int(rng.randint(1, 4)))]
+                        if N <= 40:
+                            s.compute_rhat(others)
+                            s.compute_rhat(others)
+                            s.compute_rhat(others[0])
+                    elif r <= 2:
                         n = s.Ns
                         b = int(rng.choice([0, 1, n - 1, n, n + 1, rng.randint(0, n + 1)]))
                         t = int(rng.choice([1, 2, 3, n, n + 1, rng.randint(1, n + 2)]))
